@@ -53,6 +53,34 @@ CHECKS = {
  "C36": ("wrap_private", EX, "exhaustive enumeration of placements of leaf subsets into two private batches chained into the public wrapper (both real constraint builders under CX)",
          "For all 1044 placements of 1..4 of 6 compatible leaves into 2x2 slots (rest dummy) and outer padding M=2/3: outer non-zero slots sum to the real leaves' outputs; outer non-zero nullifiers = real nullifiers + H(H(u)) of dummy slots of real inners; all-dummy inners add nothing.",
          "recursion binding is C11; real two-layer proofs in C18's check.", "§4 C36"),
+
+ "C14": ("provers", EX, "bounded-exhaustive enumeration of proof vectors (length 0..N+1 over an alphabet of genuine and tampered proofs) on the real PrivateBatchProver::commit / public admission preflight, each accepted commit's witness (hook H3) evaluated on the circuit by CX",
+         "For every vector over 10 (quick) / 13 (thorough) real leaf proofs at N=2 (N=3 thorough) and over 8 real private-batch proofs at M=2: commit Ok => documented policy holds and the committed witness satisfies the wrapper constraints (every 7th also the production recursive circuit, some really proven); commit Err on a policy-conformant vector => no arrangement of the padded batch satisfies the circuit. Found and fixed: group sum 2^32 accepted by commit (known_findings.json).",
+         "most vectors use the private-batch circuit without row blinding (commit's admission logic is config-independent); decisions compared as Ok/Err + circuit verdicts, not error text.", "§4 C14"),
+ "C15": ("provers", MC, "choice tree over all environment answers of the shuffle RNG (hook H4 scripted RNG): every Fisher-Yates index script, rejected draws, every pattern of <=2 non-canonical preimage blocks per slot; executed by the real commit, slots read back through hook H3",
+         "For N=2..4 (5 thorough) and every k: the committed batch is exactly the k supplied proofs plus N-k exact template copies; the map script -> slot order is a bijection onto the permutations (N!/(N-k)! arrangements each hit (N-k)! times); slot i carries the i-th canonical random block, non-canonical blocks are never committed; the public prover keeps the supplied order followed by templates for every ordered selection.",
+         "uniformity of rand's ThreadRng/gen_range themselves; scripts assume rand 0.8.6's Lemire sampling (a changed consumption pattern with all oracles holding is a machinery error, not a violation).", "§4 C15"),
+ "C19": ("pool", MC, "explicit-state breadth-first search over all operation histories of the real ProofPool (cloned live objects, virtual clock hook H5) in lock step with a reference model; every transition compared",
+         "Every history of depth<=5 (quick) / <=9 (thorough, time-capped per level) over 24 operations x 13 proofs x 4 limit settings: push admits iff the documented rule chain in order (verification calls observed through the hook counter, so bucket-cap/duplicate rejections only after a successful verify), a rejected push changes only window start/count.",
+         "pool verifier is a tiny free-PI circuit with the private-batch layout (the pool treats its verifier as a black box); ages above 3 half-windows merged in the canonical state (all thresholds <= 2).", "§4 C19-C22"),
+ "C20": ("pool", MC, "same state-space search; invariants evaluated on every reached state from the observed view (hook verif_view) and against the model",
+         "On every reached state: nullifier index = exactly the pooled nullifiers mapped to their bucket, no shared nullifier, no empty bucket, proof in its key's bucket, counts within limits, bucket_stats = recomputed counts/saturating volume/oldest age/last snapshot age.", "as C19", "§4 C19-C22"),
+ "C21": ("pool", MC, "same state-space search; removal operations and snapshots compared with the model, every non-empty snapshot passed to the real public-batch preflight (hook H6)",
+         "On every transition: proofs disappear only through settlement, expiry (strictly older than the cutoff) or bucket removal, exactly the targets, correct count/returned proofs; snapshots remove nothing, return the oldest min(len,batch) in admission order and pass the public-batch preflight.", "as C19; preflight verdicts memoised per distinct snapshot list", "§4 C19-C22"),
+ "C22": ("pool", MC, "same state-space search with clock advances landing before, on and after every comparison threshold",
+         "On every transition: at most `budget` verifier calls per window counting failed ones, the counter restarts only when now-start >= W, an exhausted budget rejects without calling the verifier.", "as C19", "§4 C19-C22"),
+ "C24": ("pure", EX, "bounded-exhaustive enumeration: all vectors within Hamming distance 2 of valid serialisations over a 7-value alphabet, all lengths around each layout boundary, count grids, against reference layout predicates; felt parser vs u64 parser",
+         "~0.9M (quick) / 2.5M (thorough) parser calls: no panic, Ok iff the reference layout predicate holds, parse(serialise(x)) = x, the two private-batch parsers agree on Ok/Err and value.", "alphabets and distance balls, not all vectors", "§4 C24"),
+ "C25": ("pure", EX, "bounded-exhaustive enumeration of byte strings, felt vectors, digests, limbs and amounts against reference encoders",
+         "All byte strings of length<=2, all over {0,1,2,ff} to length 7, cap boundary lengths; all felt vectors of length<=3 over 18 values; 4096 digests with limbs around p; limb alphabets around 2^32; 55 amounts: round trip, injectivity, over-cap rejection, decode accepts exactly images, digest accepted iff limbs<p, limb decoding iff <2^32, quantisation fails iff >u32.", "alphabets instead of all byte strings up to 1 MiB", "§4 C25, C26"),
+ "C26": ("pure", EX, "bounded-exhaustive enumeration of compact-hash inputs (all limb tuples over 6 values at every length 0..25, cap boundary) and all 4096 child quadruples over 8 hashes (hook H8)",
+         "Compact hash accepts exactly len<=1MiB, len%8=0, limbs<p; accepted inputs hash like one canonical felt per limb and never collide; hash_node errs (no panic) iff a child is non-canonical, is order independent and equals presorted hashing on sorted children.", "Poseidon2 permutation shared with the reference", "§4 C25, C26"),
+ "C28": ("pure", EX, "full grid enumeration of CircuitConfig fields around every threshold at validate_circuit_config, every failing config within distance 2 of canonical at all six constructors (under a counting allocator), ~5M memprof flag sets",
+         "validate accepts exactly the stated conjunction on 630k (7M thorough) configs; every constructor returns Err without panicking or allocating >1MiB on failing configs; every memprof flag set that validates builds a config passing the shared check.", "fields outside the policy held fixed", "§4 C28, C29"),
+ "C29": ("pure", EX, "enumeration of counts {0,1,64,65,1000,2^32,2^63,MAX,...} at every entry point under a counting allocator (child process), try_pi_len grid vs u128, all 64x65 config files",
+         "Every bad count is rejected with Err, no panic, <1MiB peak allocation and no output directory touched at all listed entry points; layout arithmetic never wraps; config files round-trip for every valid pair incl. the legacy key.", "valid counts only judged at the cheap entry points", "§4 C28, C29"),
+ "C35": ("pure", EX, "enumeration of generated documents: all pairs of boundary parameters (state root, node count/size/total, indices, raw size by whitespace/extra field/escapes, structure defects) under a counting allocator",
+         "3.3k documents: never panics; >8MiB rejected with <64KiB allocated (not parsed); over-cap fields rejected; everything accepted passes validate().", "acceptance of in-cap documents is counted, not demanded", "§4 C35"),
  "C05": ("leafprove", EX, "bounded-exhaustive enumeration of honest inputs (depth x position pattern x corner) and malformed path shapes on the real prover, pinned verifier, both parsers and CX",
          "Every enumerated honest input (all 4^d position patterns for d<=3 quick / <=4 thorough, 6 patterns for deeper trees up to 16, 8 amount/fee corners, 4 transfer counts) is accepted by the circuit with the documented public inputs and by commit; a deterministic subset is proven and verified by the keccak-pinned verifier and parsed back by both parsers; all 361 (siblings,positions) length pairs, depth 64/1000 and positions 4/5/255 give Err, never a panic.",
          "Real proving on a subset only; CX acceptance on all.", "§4 C05"),
